@@ -12,6 +12,17 @@ for d in sorted(os.listdir(os.path.join(ROOT, "seeded"))):
     first = re.split(r"(?<=[.!?])\s", am.strip().replace("\n", " "))[0][:170] if am else ""
     det = "; ".join(f"{k} {v['tier']}: {'caught' if v['detected'] else 'MISSED'}" for k, v in m.get("checks", {}).items())
     hist = m.get("history", "")
+    if isinstance(hist, list):
+        # detection history: first result per check, if it differs from the current one
+        notes = []
+        for c, v in m.get("checks", {}).items():
+            firsts = [h[c]["detected"] for h in hist if isinstance(h, dict) and c in h and isinstance(h[c], dict)]
+            if firsts and firsts[0] is False and v.get("detected"):
+                notes.append(f"{c}: first MISSED, caught after the engine was extended")
+        hist = "; ".join(notes)
+    for k in ("note", "suite_note", "patch_rebased"):
+        if m.get(k):
+            hist = (hist + "; " if hist else "") + str(m[k])[:160]
     rows.append(f"| {d} | {', '.join(m.get('touched', []))[:60]} | {first} | {'yes' if m.get('verified') else 'NO'} | {det}{(' — ' + hist) if hist else ''} |")
 print("| seed | touches | what (author's first sentence) | verified (suite passes, demo fails with / passes without) | our check |")
 print("|---|---|---|---|---|")
